@@ -146,10 +146,10 @@ pub fn drive_hooked(args: &[String]) {
             let tag = format!("r{run}");
             sink.emit(json!({"ev": "header", "run": tag, "name": gr.name, "ng": gr.ng, "rels": gr.rels, "subs": subs, "gact": gr.act, "order": gr.order,
                              "truen": act.len(), "act": act}));
-            let _ = rust_dsymbols::verif::take();
+            rust_dsymbols::verif::record(true); let _ = rust_dsymbols::verif::take();
             let sw = words(&subs);
             let r = catch(|| coset_table(gr.ng, &rels, &sw));
-            let evs = rust_dsymbols::verif::take();
+            rust_dsymbols::verif::record(false); let evs = rust_dsymbols::verif::take();
             for e in evs {
                 let mut v: Value = serde_json::from_str(&e).expect("hook event");
                 v["run"] = json!(tag);
